@@ -76,6 +76,18 @@ Theorem C09_dotnet_method_ranges_fix_conservative :
     finalize_methods true classes_rev last len = finalize_methods false classes_rev last len.
 Proof. exact finalize_methods_fix_conservative. Qed.
 
+(* module/macho.rs: after the repair parsing a fat file never nests deeper than two frames, whatever the arch
+   offsets are; the pinned code recursed without bound on a fat file that contains itself (finding
+   C09-macho-fat-recursion: stack overflow, process abort; repaired in /repo) *)
+Theorem C09_macho_fat_recursion_bounded :
+  forall files pos fuel, macho_parse true files (S (S fuel)) false pos = Some tt.
+Proof. exact macho_parse_fixed_bounded. Qed.
+
+Theorem C09_macho_fat_recursion_pinned_refuted :
+  forall fuel, macho_parse false (fun _ => MFat [0]) fuel false 0 = None
+               /\ macho_parse false (fun _ => MFat [0]) fuel true 0 = None.
+Proof. exact fat_depth_pinned_refuted. Qed.
+
 (* non-vacuity: a section table on which the unchecked subtraction is actually exercised, and the hypothesis of the
    last theorem is satisfiable *)
 Example C09_entrypoint_example :
@@ -106,3 +118,5 @@ Print Assumptions C09_version_info_walk_fix_conservative.
 Print Assumptions C09_dotnet_method_ranges_no_panic.
 Print Assumptions C09_dotnet_method_ranges_pinned_refuted.
 Print Assumptions C09_dotnet_method_ranges_fix_conservative.
+Print Assumptions C09_macho_fat_recursion_bounded.
+Print Assumptions C09_macho_fat_recursion_pinned_refuted.
